@@ -22,7 +22,7 @@ pub static DEF: CheckDef = CheckDef {
     id: "C20",
     level: "exploration",
     technique: "deterministic multi-node network simulation with silence injection and seeded stop points: concurrent lookups / puts / gets / direct RPCs on every node under seeded latencies, peers silenced mid-operation, stop() at drawn instants; bounded-liveness oracle in simulated time (every operation and every stop() returns within a bound proportional to the request timeout; outer deadline detects a total stall), post-stop oracle over the recorded frame trace (no request leaves a stopped node), task handles joined",
-    runs: (800, 20000),
+    runs: (2000, 60000),
     generate,
     execute,
     shrink,
